@@ -133,6 +133,11 @@ def scenarios():
             for p in positions(4):
                 add("eval_at_%d_%s_%s" % (order, w[0], p), [("a", spl(order, w[1], w[2])), ("x", SCALAR)],
                     "spl_eval {a} {x}", "ok", ("scalar",), "a(x)")
+    for p in ("at0", "in01", "at2"):
+        add("eval_reassigned_2_" + p,
+            [("a0", spl(2, 0, 4)), ("x1", SCALAR), ("b", spl(1, 0, 3)), ("a", spl(2, 0, 3)), ("x", SCALAR)],
+            "spl_eval {a} {x}", "ok", ("scalar",),
+            "a(x)   (a: a0 of order 2 on the whole grid, evaluated at x1 in its last interval, then assigned b of order 1 on [g0,g2])")
     for w in (WIN_WHOLE, WIN_G13, WIN_ONE, WIN_POINT, WIN_EMPTY):
         add("eval_front_1_%s" % w[0], [("a", spl(1, w[1], w[2]))], "spl_front {a}", "ok", ("scalar", "throw"), "a.front()")
         add("eval_back_1_%s" % w[0], [("a", spl(1, w[1], w[2]))], "spl_back {a}", "ok", ("scalar", "throw"), "a.back()")
@@ -640,8 +645,8 @@ def generate(sc):
         for _, o in s["args"]:
             if o["kind"] == "spline":
                 for t in o["grid"] + [t for c in o["coefs"] for t in c]:
-                    if t[0] != "v":
-                        die(5, "scenario %s: an operand's grid point / coefficient is not a variable" % name)
+                    if t[0] not in ("v", "c"):  # (c 0): the padding of a cross-order assignment
+                        die(5, "scenario %s: an operand's grid point / coefficient is neither a variable nor a literal" % name)
 
         env = {tag: operand_text(o) for tag, o in s["args"]}
         stmts = []  # (suffix, call, rhs)
